@@ -163,6 +163,32 @@ def bounded(arg):
                 for f in fails:
                     failures.append({'id': 'construct', 'canon': f.split(':')[0] + (' (parent %s)' % parent_kind if 'raised' in f else ''),
                                      'detail': '%s(%r) parent=%s: %s' % (cls.__name__, kw, parent_kind, f)})
+    # rendering goes through the report's formatter with the RAW field value
+    from pedal.core.report import Report as _R
+    from pedal.core.feedback import Feedback as _F
+    from pedal.core.formatting import Formatter as _Fmt
+
+    class TypeFormatter(_Fmt):
+        def name(self, x):
+            return '<%s:%r>' % (type(x).__name__, x)
+
+        def line(self, x):
+            return 'L%d' % (x + 1)
+    for tmpl, fields in (("at {where:line}", {'where': 27}), ("{n:name}", {'n': 5}), ("{n:name}", {'n': ['a']}),
+                         ("{where:>6:line}", {'where': 3}), ("{s:name} {s}", {'s': 'txt'})):
+        rep = _R()
+        rep.set_formatter(TypeFormatter())
+        evaluations += 1
+        distinct.add(('format', tmpl))
+        try:
+            fb = _F(report=rep, label='fmt', message_template=tmpl, fields=dict(fields))
+            want = tmpl.format(**{k: _W(v, rep.format) for k, v in fields.items()})
+            if fb.message != want:
+                failures.append({'id': 'formatter', 'canon': 'field not rendered through the formatter with its raw value',
+                                 'detail': 'template %r fields %r: message %r, expected %r' % (tmpl, fields, fb.message, want)})
+        except Exception as e:
+            failures.append({'id': 'formatter', 'canon': 'field not rendered through the formatter with its raw value',
+                             'detail': 'template %r fields %r raised %r' % (tmpl, fields, e)})
     # override / clear sequences
     from pedal.core.report import Report
     from pedal.core.feedback import Feedback
@@ -175,6 +201,27 @@ def bounded(arg):
     class B(A):
         priority = 'low'
     orig = {(c, f): getattr(c, f) for c in (A, B) for f in ('title', 'muted', 'priority', 'category')}
+    own = {(c, f) for c in (A, B) for f in ('title', 'muted', 'priority', 'category') if f in c.__dict__}
+    # every ordered pair of overrides over {A, B(A)} x fields x two values, then clear()
+    import itertools as _it
+    pairs = list(_it.product(_it.product([A, B], ['title', 'muted', 'priority', 'category'], ['x', None]), repeat=2))
+    for ops_ in pairs:
+        report = Report()
+        for c, f, v in ops_:
+            c.override(report=report, **{f: v})
+        report.clear()
+        evaluations += 1
+        distinct.add(tuple((c.__name__, f, v) for c, f, v in ops_))
+        bad = [(c.__name__, f) for (c, f), v in orig.items() if getattr(c, f) != v or (f in c.__dict__) != ((c, f) in own)]
+        if bad:
+            failures.append({'id': 'override_restore', 'canon': 'class attribute not restored after clear()',
+                             'detail': 'overrides %r then clear(): %r not as before' % (
+                                 [(c.__name__, f, v) for c, f, v in ops_], bad)})
+            for (c, f), v in orig.items():
+                if (c, f) in own:
+                    setattr(c, f, v)
+                elif f in c.__dict__:
+                    delattr(c, f)
     for _ in range(40 if quick else 400):
         report = Report()
         ops = []
